@@ -1048,6 +1048,28 @@ def body(kind, i, mdir, infile):
     raise HarnessError(f"unknown command kind {kind}")
 
 
+# return-file path shapes (label -> path requested in return_files and written by the command).
+# Measured on the unchanged code: all of these are handled; NOT handled and therefore out of scope: input `files` keys
+# with a directory component (the runner does not create directories: FileNotFoundError).
+PATHS = {
+    "top": "top.dat",
+    "dir1": "results/final.dat",
+    "dir2": "results/deep/wfn.bin",
+    "dotslash": "./dot.dat",
+    "dots": "a.b.c.dat",
+    "space": "my file.dat",
+    "unicode": "\u017c\u00f3\u0142\u0107.dat",
+    "samebase": "final.dat",  # same basename as results/final.dat, other content
+    "directory": "adir",  # the command creates a DIRECTORY of that name: never an existing *file*
+}
+# input files whose names have blanks / several dots / non-ASCII characters (top level)
+PATH_INFILES = {"in put.txt": "text line\n", "a.b.in": b"\x00\x01\xff", "\u017c\u00f3\u0142\u0107.in": b"uni\xfe"}
+
+
+def path_bytes(lab):
+    return f"C-{lab}".encode() + b"\x00\xff"
+
+
 def make_exec_class():
     class ExecDriver(DriverBase):
         default_executable = "sh"
@@ -1079,6 +1101,29 @@ def make_exec_class():
         def script(self, out, item, **kwargs):
             return out
 
+        @Job().prep
+        def paths(self, item, spec=None, mdir=None):
+            m = shlex.quote(str(mdir))
+            text = f"echo 0 >> {m}/order; pwd > {m}/cwd0; "
+            for lab in spec["written"]:
+                pth = PATHS[lab]
+                if lab == "directory":
+                    text += f"mkdir -p {shlex.quote(pth)}; "
+                    continue
+                dn = os.path.dirname(pth)
+                if dn and dn != ".":
+                    text += f"mkdir -p {shlex.quote(dn)}; "
+                text += f"printf 'C-{lab}\\000\\377' > {shlex.quote(pth)}; "
+            for j, fn in enumerate(PATH_INFILES):
+                text += f"cp {shlex.quote(fn)} {m}/pin{j}; "
+            return JobInput(
+                item.name,
+                commands=[(shlex.join([self.executable, "-c", text + ":"]), "c0" if spec["named"][0] else None)],
+                files=dict(PATH_INFILES),
+                return_files=tuple(PATHS[lab] for lab in spec["ret_labels"]),
+                envars=self.envars,
+            )
+
     return ExecDriver
 
 
@@ -1100,6 +1145,16 @@ def proc_env(env_mode):
 
 def reference(spec):
     """Reference interpreter of the command list."""
+    if spec.get("kind") == "paths":
+        written = {PATHS[lab]: path_bytes(lab) for lab in spec["written"] if lab != "directory"}
+        ret = [PATHS[lab] for lab in spec["ret_labels"]]
+        files = {f: written[f] for f in ret if f in written}
+        missing = [f for f in ret if f not in written]
+        return dict(
+            ran=[0], stdouts={"c0": ""} if spec["named"][0] else {}, stderrs={"c0": ""} if spec["named"][0] else {}, files=files,
+            exit_ok=not missing, failed=None, unstartable=False, reads={}, envs={}, missing=missing,
+            pins={j: (v.encode() if isinstance(v, str) else v) for j, v in enumerate(PATH_INFILES.values())},
+        )
     ran = []
     stdouts, stderrs = {}, {}
     written = {}
@@ -1167,7 +1222,10 @@ def execute(ctx, spec, via, wd: Path):
     idir = _fresh(wd / "in")
     home = _fresh(wd / "cwd")
     drv = exec_driver(spec["env"])
-    ji = drv.script.prepare(Item("job17"), spec=spec, mdir=mdir)
+    if spec.get("kind") == "paths":
+        ji = drv.paths.prepare(Item("job17"), spec=spec, mdir=mdir)
+    else:
+        ji = drv.script.prepare(Item("job17"), spec=spec, mdir=mdir)
     inp = idir / "case.inp"
     ji.dump(inp)
     obs = {"via": via, "hash": ji.hash, "exc": None, "exit": None, "stderr_tail": ""}
@@ -1253,6 +1311,8 @@ def execute(ctx, spec, via, wd: Path):
             obs["cwds"][int(p.name[3:])] = os.path.realpath(p.read_text().rstrip("\n"))
         elif p.name.startswith("read"):
             obs["reads"][int(p.name[4:])] = p.read_bytes()
+        elif p.name.startswith("pin"):
+            obs.setdefault("pins", {})[int(p.name[3:])] = p.read_bytes()
         elif p.name.startswith("env"):
             idx, var = p.name[3:].split("_", 1)
             obs["envs"].setdefault(int(idx), {})[var] = p.read_bytes().decode("utf8", "replace")
@@ -1335,6 +1395,10 @@ def check_exec(ctx, spec, obs, case):
                 sym = "wrong-value"
             viol("environment", f"{sym}[{cls}]", f"command saw {var} as {got!r} (\"set:<value>\" / \":\" = unset); JobInput.envars says {want!r}, runner environment has {inherited!r} (mode {spec['env']})")
     # -- the JobOutput
+    blamed = []
+    for j, b in ref.get("pins", {}).items():
+        if obs.get("pins", {}).get(j) != b:
+            viol("input-file", "bytes-differ[special-name]", f"materialised input file {list(PATH_INFILES)[j]!r} differs from JobInput.files")
     out = obs["out"]
     if out is None and crashed_on_unstartable:
         pass
@@ -1354,11 +1418,20 @@ def check_exec(ctx, spec, obs, case):
             elif text is not None and se[name] != text:
                 viol("capture", "stderr-differs", f"stderr of {name}: {se[name]!r} != {text!r}")
         fl = out.files or {}
+        pcls = lambda f: next((lab for lab, pth in PATHS.items() if pth == f), None) if spec.get("kind") == "paths" else None
         for f, b in ref["files"].items():
-            if f not in fl:
-                viol("return-files", "existing-file-not-returned", f"requested file {f} was written but is not in JobOutput.files")
-            elif bytes(fl[f]) != b:
-                viol("return-files", "bytes-differ", f"returned {f}: {bytes(fl[f])!r} != {b!r}")
+            got = fl.get(f, fl.get(os.path.normpath(f)))  # under the requested name or its normalised spelling
+            tag = f"[{pcls(f)}]" if pcls(f) else ""
+            if got is None:
+                viol("return-files", "existing-file-not-returned" + tag, f"requested file {f} was written but is not in JobOutput.files")
+                blamed.append(pcls(f))
+            elif bytes(got) != b:
+                viol("return-files", "bytes-differ" + tag, f"returned {f}: {bytes(got)!r} != {b!r}")
+            elif f not in fl:
+                blamed.append(pcls(f))  # returned, but not under the name it was requested by
+        for f in ref["missing"]:
+            if spec.get("kind") == "paths" and (f in fl or os.path.normpath(f) in fl):
+                viol("return-files", f"file-returned-although-not-produced[{pcls(f)}]", f"requested {f} was not produced as a file but JobOutput.files has it")
         if out.input_hash != obs["hash"]:
             viol("hash", "input_hash-differs-from-JobInput.hash", f"JobOutput.input_hash {out.input_hash!r} != JobInput.hash")
     # -- exit status
@@ -1367,7 +1440,11 @@ def check_exec(ctx, spec, obs, case):
         ex = "os-error"  # in-process: the exception that makes the console script exit non-zero
     if ref["exit_ok"]:
         if ex != 0:
-            viol("exit-status", "nonzero-although-all-succeeded", f"exit status {ex!r} although every command succeeded and every requested file exists")
+            tag = ""
+            if spec.get("kind") == "paths":
+                b = sorted(x for x in blamed if x)
+                tag = f"[{b[0]}]" if b else "[paths]"
+            viol("exit-status", "nonzero-although-all-succeeded" + tag, f"exit status {ex!r} although every command succeeded and every requested file exists (requested {spec.get('ret_labels', spec.get('ret'))})", repro=DOTSLASH_REPRO if tag == "[dotslash]" else None)
     else:
         if ex == 0:
             sym = f"zero-although-command-failed[{fclass}]" if ref["failed"] is not None else "zero-although-requested-file-missing"
@@ -1376,6 +1453,21 @@ def check_exec(ctx, spec, obs, case):
             viol("exit-status", "no-exit-status", "run_local returned without an exit status")
     return nv
 
+
+DOTSLASH_REPRO = """\
+import os, sys, tempfile
+from molli.pipeline.job import JobInput, JobOutput
+from molli.pipeline import runner
+d = tempfile.mkdtemp()
+JobInput("j", commands=[("sh -c 'echo data > dot.dat'", None)], return_files=("./dot.dat",)).dump(f"{d}/j.inp")
+sys.argv = ["_molli_run", f"{d}/j.inp", "-o", f"{d}/out", "-s", f"{d}/scratch"]
+try:
+    runner.run_local()
+except SystemExit as e:
+    print("exit", e.code, JobOutput.load(f"{d}/out/j.out").files)
+# exit 1 although the requested file exists: runner.py keys the returned files by str(Path(f)) ('dot.dat') and
+# compares that set with the requested spellings ('./dot.dat')
+"""
 
 NONE_REPRO = """\
 import os, sys, tempfile
@@ -1429,7 +1521,7 @@ def enumerate_specs(ctx, seed):
     if not ctx.thorough:
         # length 4: every success/failure pattern with output, files and failure at every position
         sub = [k for k in kinds if k in ("P", "X", "Wa")]
-        masks = naming_masks(4, full=False)
+        masks = naming_masks(4, full=False)[:2]  # all named, none named
         for cmds in itertools.product(sub, repeat=4):
             specs.extend(specs_for(cmds, masks, [(), ("a.dat",), ("a.dat", "b.bin")]))
     # failure modes: every list of length 1..4 over {print, write a.dat, FAIL} with at least one FAIL, for every
@@ -1441,7 +1533,7 @@ def enumerate_specs(ctx, seed):
         if ctx.thorough:
             masks, rr = naming_masks(n, full=True), rets
         else:
-            masks = [m for m in (tuple([True] * n), tuple([False] * n))]
+            masks = [tuple([True] * n)] + ([tuple([False] * n)] if n < 4 else [])
             rr = [(), ("a.dat",)]
         for skel in itertools.product(("P", "Wa", "F"), repeat=n):
             if "F" not in skel:
@@ -1467,6 +1559,20 @@ def enumerate_specs(ctx, seed):
     ctx.bound["B_full_alphabet_length"] = full_len
     ctx.bound["B_length4"] = "full alphabet" if ctx.thorough else "sub-alphabet {P,X,Wa}, every pattern"
     return specs
+
+
+def path_specs(ctx, seed):
+    """Return-file path shapes: every set of 1..3 (thorough: 1..4) requested paths x every subset of them produced."""
+    labs = list(PATHS)
+    labs = labs[seed % len(labs) :] + labs[: seed % len(labs)]
+    out = []
+    for n in range(1, (4 if ctx.thorough else 3) + 1):
+        for req in itertools.combinations(labs, n):
+            for k in range(len(req), -1, -1):
+                for wr in itertools.combinations(req, k):
+                    out.append({"kind": "paths", "cmds": ["PATHS"], "named": [True], "ret": [PATHS[x] for x in req], "ret_labels": list(req), "written": list(wr), "infile": None, "env": None})
+    ctx.bound["B_return_file_paths"] = {"paths": dict(PATHS), "requested": f"every set of 1..{4 if ctx.thorough else 3}", "produced": "every subset of the requested set", "input_file_names": list(PATH_INFILES)}
+    return out
 
 
 def conformance_specs(ctx, specs, seed):
@@ -1532,7 +1638,7 @@ def conformance_specs(ctx, specs, seed):
 
 
 def spec_key(spec, via):
-    return (via, tuple(spec["cmds"]), tuple(spec["named"]), None if spec["ret"] is None else tuple(spec["ret"]), spec["infile"], spec["env"])
+    return (via, tuple(spec["cmds"]), tuple(spec["named"]), None if spec["ret"] is None else tuple(spec["ret"]), spec["infile"], spec["env"], tuple(spec.get("written", ())))
 
 
 def run_part(sub, part):
@@ -1590,6 +1696,10 @@ def chunks(lst, n):
 def execution_parts(ctx, seed):
     specs = enumerate_specs(ctx, seed)
     conf = conformance_specs(ctx, specs, seed)
+    pspecs = path_specs(ctx, seed)
+    specs = specs + pspecs
+    # through the console script: each path alone (produced), and one mixed request
+    conf = conf + [p for p in pspecs if len(p["ret_labels"]) == 1 and p["written"]] + [p for p in pspecs if set(p["ret_labels"]) == {"top", "dir1", "dir2"} and len(p["written"]) in (0, 3)]
     nproc = 16 if ctx.thorough else 8
     # subprocess cases first: they are the slow ones
     parts = [("script", c) for c in chunks(conf, nproc * 2 if ctx.thorough else len(conf))] + [("inproc", c) for c in chunks(specs, nproc * 4)]
